@@ -27,7 +27,8 @@ HARNESSES = {
                      "k17_2_mask_into_slice_bounds", "k17_2_mask_into_slice_real", "k17_3_token_range_test"],
                 c17_fail=["k17_witness_must_fail"]),
     "builder": dict(c19=["k19_1_negated_ranges_n1", "k19_1_negated_ranges_n2", "k19_1_negated_ranges_n3"], c19_fail=["k19_1_witness_must_fail"]),
-    "parser": dict(c20=["c20_item_packing"], c13=["k13_3_forced_byte_probe"], c13_fail=["k13_3_witness_must_fail"]),
+    "parser": dict(c20=["c20_item_packing"], c13=["k13_3_forced_byte_probe"], c13_fail=["k13_3_witness_must_fail"],
+                   c19=["k19_4_bias_post_s0_n0", "k19_4_bias_post_s0_n1", "k19_4_bias_post_s0_n2", "k19_4_bias_post_s1_n1"], c19_fail=["k19_4_witness_must_fail"]),
     "lexerspec": dict(c19=["k19_2_contains_token"]),
 }
 
@@ -167,6 +168,26 @@ def slice_forced_byte():
     return "{\n" + "\n".join(body) + "\n}\n"
 
 
+def slice_bias_post():
+    """statements of ParserState::compute_bias after the trie walk: from the marker comment up to the cache update"""
+    src = open(os.path.join(REPO, "parser/src/earley/parser.rs")).read().splitlines()
+    fn = [i for i, l in enumerate(src) if l.startswith("    fn compute_bias(&mut self, computer: &dyn BiasComputer, start: &[u8]) -> SimpleVob {")]
+    if len(fn) != 1:
+        raise SliceError("anchor `fn compute_bias(&mut self, computer: &dyn BiasComputer, start: &[u8]) -> SimpleVob {` (ParserState) not found exactly once in parser.rs")
+    body = _block_after(src, fn[0])
+    # start: first statement after `self.stats.lexer_cost = …;` (the end of the walk) ; end: the cache update
+    st = [i for i, l in enumerate(body) if l.strip().startswith("self.stats.lexer_cost =")]
+    en = [i for i, l in enumerate(body) if l.strip() == "// Update cache when start is empty"]
+    if len(st) != 1 or len(en) != 1 or en[0] <= st[0]:
+        raise SliceError("compute_bias no longer has `self.stats.lexer_cost = …;` followed by `// Update cache when start is empty`")
+    part = body[st[0] + 1:en[0]]
+    txt = "\n".join(part)
+    for need in ("disallow_token", "allow_range", "allow_token"):
+        if need not in txt:
+            raise SliceError("compute_bias post-walk statements no longer contain %s" % need)
+    return "{\n" + txt + "\n}\n"
+
+
 def prepare(tag, mods):
     """returns overlay with the requested harness modules injected. raises SliceError / FileNotFoundError (-> inconclusive)"""
     ov = e1.Overlay(tag)
@@ -179,6 +200,7 @@ def prepare(tag, mods):
             ov.write("parser/src/verif_ffi_token_slice.rs", slice_ffi_token())
         if "parser" in mods:
             ov.write("parser/src/earley/verif_forced_byte_slice.rs", slice_forced_byte())
+            ov.write("parser/src/earley/verif_bias_post_slice.rs", slice_bias_post())
         if "builder" in mods:
             ov.write("parser/src/verif_negated_slice.rs", slice_negated())
     except Exception:
